@@ -58,6 +58,9 @@ CHECKS['C03'] = dict(tech=T + ': Operators::to_operator on all operator-alphabet
 CHECKS['C15'] = dict(tech=T + ' (Dispatch_Engine::get_state/set_state) with container copy operations as recorders and the lock model of C13',
    text='get_state copies each of the five engine tables into its counterpart of the returned State with the engine mutex held; set_state assigns each of the five tables from the given State with the mutex held unique; locks released on exit.',
    note='container copies are recorders (what a copy contains is libstdc++); snapshot stability under later add_function (copy-on-write), ChaiScript_Basic-level state (used files, modules) are not covered yet')
+CHECKS['C02'] = dict(tech=T + ' (optimizer::Dead_Code::optimize on heap nodes with children of symbolic kinds; lemma on the dropped node kinds)',
+   text='Local soundness of the Dead_Code rewrite: for blocks of 1-3 children whose kinds are symbolic (identifier, constant, no-op, effectful) the pass drops exactly the non-final Constant/Noop statements and keeps every other child (same node objects, same order, text and location preserved); non-blocks are untouched; the dropped kinds evaluate without calling anything or throwing (Constant lemma).',
+   note='only the Dead_Code pass is covered in this session (the other eight passes are outside the claim); composition of local rewrites through build_match is argued')
 ALL = ['C%02d' % i for i in range(1, 21)]
 def main():
     checks = []
